@@ -13,8 +13,12 @@ Numerical statement checks on the implementation (support, and the falsifier):
              at the true state; lever arms include ones with one or two exactly-zero components and the zero arm
   residual   z = predicted - measured against an independent oracle (ECEF difference rotated to NED for
              Position; v + C(w x l) - m; C^T v - m)
+  layout     a Pva Series with rates first / permuted labels / unrelated extra entries gives the same z, H, R as
+             the canonical order (all statements above also run on such Series)
   noise      R = sd^2 I with the shape of z;   absent   compute_matrices(t not in data) is None
-  sim        generate_*_measurements with zero noise at the true state: z ~ 0; injected error e: z ~ -e
+  sim        generate_*_measurements with zero noise at the true state: z ~ 0; injected error e: z ~ -e; incl.
+             trajectories at / beyond the +-180 deg meridian (lon > 180 after crossing, 0..360 convention, noise
+             pushing a point across)
 """
 import math
 import random
@@ -58,8 +62,17 @@ def build(p, near=False):
     return pva9, rates, l, em, meas
 
 
-def full(pva9, rates):
-    return pva9 if rates is None else pd.concat([pva9, rates])
+def full(pva9, rates, p=None):
+    """The Pva Series handed to compute_matrices.  Canonical: the 9 entries (+ rates appended, as the filters do).
+    With p['layout']: the same labelled entries in another order (rates first / a permutation) and/or with
+    unrelated extra entries -- a Pva is addressed by LABEL, so nothing may change."""
+    ser = pva9.copy() if rates is None else pd.concat([pva9, rates])
+    lay = (p or {}).get('layout')
+    if not lay:
+        return ser
+    for k, v in lay.get('extra', {}).items():
+        ser[k] = v
+    return ser[lay['order']]
 
 
 def predicted(p):
@@ -100,10 +113,10 @@ def eval_case(kind, p):
     """One statement on the implementation: (ok, detail)."""
     from pyins import sim, transform
     from pyins.error_model import InsErrorModel
-    if kind in ('jacobian', 'residual', 'noise', 'absent'):
+    if kind in ('jacobian', 'residual', 'noise', 'absent', 'layout'):
         pva9, rates, l, em, meas = build(p, near=(kind == 'jacobian'))
         n = em.n_states
-        ret = meas.compute_matrices(T0, full(pva9, rates), em)
+        ret = meas.compute_matrices(T0, full(pva9, rates, p), em)
         if ret is None:
             return False, dict(error="None at a time present in the data")
         z, H, R = ret
@@ -113,8 +126,17 @@ def eval_case(kind, p):
         nz = 3 if (p['with_altitude'] or p['cls'] == 'BodyVelocity') else 2
         if z.shape != (nz,) or H.shape != (nz, n) or R.shape != (nz, nz):
             return False, dict(shapes=[list(z.shape), list(H.shape), list(R.shape)], expected=[nz, n])
+        if kind == 'layout':
+            q = dict(p, layout=None)
+            z0, H0, R0 = meas.compute_matrices(T0, full(pva9, rates, q), em)
+            dz = float(np.abs(z - np.asarray(z0, dtype=float)).max())
+            dH = float(np.abs(H - np.asarray(H0, dtype=float)).max())
+            dR = float(np.abs(R - np.asarray(R0, dtype=float)).max())
+            return max(dz, dH, dR) <= 1e-12 * max(1.0, float(np.abs(H0).max())), \
+                dict(order=p['layout']['order'] if p.get('layout') else None, dz=dz, dH=dH, dR=dR,
+                     H=H.tolist(), H_canonical=np.asarray(H0, dtype=float).tolist())
         if kind == 'absent':
-            got = [meas.compute_matrices(t, full(pva9, rates), em) for t in ABSENT]
+            got = [meas.compute_matrices(t, full(pva9, rates, p), em) for t in ABSENT]
             return all(g is None for g in got), dict(returned=[g is not None for g in got])
         if kind == 'noise':
             want = p['sd'] ** 2 * np.eye(nz)
@@ -130,7 +152,7 @@ def eval_case(kind, p):
 
         def zat(x):
             c = em.correct_pva(pva9, x)
-            return np.asarray(meas.compute_matrices(T0, full(c, rates), em)[0], dtype=float)
+            return np.asarray(meas.compute_matrices(T0, full(c, rates, p), em)[0], dtype=float)
         for k in range(n):
             h = 1.0 if k < 2 * npos else 1e-2
             e = np.zeros(n)
@@ -165,7 +187,7 @@ def eval_case(kind, p):
             q['meas'] = [float(v) for v in C.T @ np.array(pva[3:6])]
             tol = 1e-9
         pva9, rates, l_, em, meas = build(q)
-        ret = meas.compute_matrices(T0, full(pva9, rates), em)
+        ret = meas.compute_matrices(T0, full(pva9, rates, q), em)
         if ret is None:
             return False, dict(error="None at a time present in the data")
         z = np.asarray(ret[0], dtype=float)
@@ -236,6 +258,22 @@ def gen_cases(rng, n):
             p['meas'] = [pva[3] + d[0], pva[4] + d[1], pva[5] + d[2]]
         else:
             p['meas'] = [rng.uniform(-300, 300) for _ in range(3)]
+        # label layout of the Pva Series: canonical / rates first / permuted labels / unrelated extra entries
+        labels = COLS + (RATES if rates else [])
+        mode = (i // len(combos) + i) % 4
+        if mode == 1:
+            p['layout'] = dict(order=(RATES if rates else []) + COLS[6:] + COLS[3:6] + COLS[:3])
+        elif mode == 2:
+            order = list(labels)
+            rng.shuffle(order)
+            p['layout'] = dict(order=order)
+        elif mode == 3:
+            extra = {'time': 12.5, 'temperature': 21.25, 'odometer': -3.5}
+            order = list(labels) + list(extra)
+            rng.shuffle(order)
+            p['layout'] = dict(order=order, extra=extra)
+        else:
+            p['layout'] = None
         cases.append(p)
     return cases, len(combos)
 
@@ -249,7 +287,7 @@ def numeric_statements(r, n, nsim, seed_shift=6):
         key = (p['cls'], p['with_altitude'], p['lever'] is not None, p['rates'] is not None)
         dist[str(key)] = dist.get(str(key), 0) + 1
         r.case(key + tuple(round(v, 6) for v in p['pva']), sample=dict(p))
-        for kind in ('jacobian', 'residual', 'antenna', 'noise', 'absent'):
+        for kind in ('jacobian', 'residual', 'antenna', 'layout', 'noise', 'absent'):
             try:
                 ok, det = eval_case(kind, p)
             except Exception as ex:
@@ -261,6 +299,23 @@ def numeric_statements(r, n, nsim, seed_shift=6):
         wa = (i % 2 == 0)
         rows = [rand_pva(rng) for _ in range(4)]
         err = [[rng.uniform(-5, 5) for _ in range(3)] for _ in range(4)]
+        if i % 3 != 0:
+            # longitudes at and beyond the +-180 deg meridian: a trajectory that crossed 180 E eastwards
+            # (lon > 180, as generate_sine_velocity_motion from lon 179.99 produces), the 0..360 convention,
+            # and a point a few metres from the meridian that the injected east error pushes across
+            from pyins import earth
+            def east_deg(row, metres):
+                return math.degrees(metres / float(earth.principal_radii(row[0], row[2])[2]))
+            if i % 3 == 1:
+                rows[0][1] = 180.0 - east_deg(rows[0], 2.0); err[0][1] = 4.0 + rng.random()
+                rows[1][1] = 180.0 + east_deg(rows[1], rng.uniform(0.5, 50.0))
+                rows[2][1] = rng.uniform(181.0, 359.0)
+                rows[3][1] = 180.0
+            else:
+                rows[0][1] = -180.0 + east_deg(rows[0], 2.0); err[0][1] = -4.0 - rng.random()
+                rows[1][1] = -180.0 - east_deg(rows[1], rng.uniform(0.5, 50.0))
+                rows[2][1] = rng.uniform(-359.0, -181.0)
+                rows[3][1] = -180.0
         p = dict(with_altitude=wa, traj=rows, err=err)
         r.case(('sim', wa) + tuple(round(v, 6) for v in rows[0]))
         try:
